@@ -44,3 +44,14 @@ func VerifExceptionType(err error) string {
 	}
 	return ex.ExceptionType
 }
+
+func init() {
+	verifConstProviders = append(verifConstProviders, func() []VerifConst {
+		e := &ProtocolVersionError{}
+		return []VerifConst{
+			verifBytes("pv_error_kind", e.ErrorKind()),
+			verifBytes("pv_error_type", VerifExceptionType(e)),
+			verifBytes("meta_protocol_version", MetaProtocolVersion),
+		}
+	})
+}
